@@ -595,3 +595,5 @@ V('ml2-same-lang-skip', ['C12', 'C10'], U, "        if t.lang == lang_stack[-1]:
   "        if t.lang == lang_stack[-1]:\n            continue\n", 'ML2')
 V('mt6-no-tag', ['C11'], 'yalafi/packages/amsmath.py', "        Macro(parms, '\\\\tag', args='*A', repl=''),\n", "", 'MT6')
 V('lt2-skip-space', ['C12'], P, "        while (buf.cur() and buf.is_space(buf.cur())\n                    and type(buf.cur()) is not defs.LanguageToken):\n            buf.next()\n", "        buf.skip_space()\n", 'LT2')
+V('sh3-repl-in-scan', ['C18'], SH, "    opts = tex2txt.Options(extr=inclusion_macros,\n", "    opts = tex2txt.Options(extr=inclusion_macros, repl=cmdline.replace,\n", 'SH3')
+V('em6-neutral-carry', ['C08'], MP, "                out = [defs.ActionToken(out[-1].pos)]\n        else:", "                out = [t for t in out] + [defs.ActionToken(out[-1].pos)]\n        else:", [])
